@@ -77,6 +77,7 @@ def undefined_reads(fn, module_names: set, enclosing: tuple = ()) -> list:
             out.append((n.id, n, 'read but defined nowhere (no assignment in the function, no module-level name, no builtin)'))
     out += _try_fallthrough(fn)
     out += _arm_fallthrough(fn)
+    out += _read_before_any_store(fn, bound)
     for n in _scope_nodes(fn):
         if isinstance(n, (ast.FunctionDef, ast.AsyncFunctionDef)):
             out += undefined_reads(n, module_names, enclosing + (bound,))
@@ -198,4 +199,172 @@ def _arm_fallthrough(fn) -> list:
                             break
                         continue
                     break
+    return out
+
+
+def swapped_arguments(prog, mi, ci, fn) -> list:
+    """[(call node, why)]: a positional argument that is a plain name equal to the name of ANOTHER positional parameter of the
+    resolved callee, while the parameter it is passed for is itself passed (as a plain name) in a different position: the two
+    arguments are swapped.  Callees: methods through the MRO (self / cls / super()), functions and classes of the package, nested
+    functions.  Names only - an expression is never judged."""
+    out = []
+    nested = {n.name: n for n in ast.walk(fn) if isinstance(n, ast.FunctionDef) and n is not fn}
+    for call in [n for n in ast.walk(fn) if isinstance(n, ast.Call)]:
+        if any(isinstance(a, ast.Starred) for a in call.args) or len(call.args) < 2:
+            continue
+        f = call.func
+        sig = None
+        if isinstance(f, ast.Attribute) and isinstance(f.value, ast.Name) and f.value.id in ('self', 'cls') and ci is not None:
+            m = prog.resolve_method(ci, f.attr)
+            if m is not None and not m.is_property:
+                sig = prog._signature(m.node, bound=not m.is_staticmethod)
+        elif isinstance(f, ast.Attribute) and isinstance(f.value, ast.Call) and isinstance(f.value.func, ast.Name) and f.value.func.id == 'super' and ci is not None:
+            m = prog.resolve_method(ci, f.attr, after=ci)
+            if m is not None and not m.is_property:
+                sig = prog._signature(m.node, bound=not m.is_staticmethod)
+        elif isinstance(f, ast.Name):
+            if f.id in nested:
+                sig = prog._signature(nested[f.id], bound=False)
+            elif f.id in prog.classes and (f.id in mi.classes or f.id in mi.imports):
+                sig = prog._signature(prog.classes[f.id], bound=False)
+            elif f.id in mi.functions:
+                sig = prog._signature(mi.functions[f.id].node, bound=False)
+            elif f.id in mi.imports and mi.imports[f.id].startswith('pokerkit.'):
+                mod, _, name = mi.imports[f.id].rpartition('.')
+                tm = prog.modules.get(mod.split('.')[-1])
+                if tm is not None and name in tm.functions:
+                    sig = prog._signature(tm.functions[name].node, bound=False)
+        if not sig:
+            # a few library callees whose argument roles are visible in the shape of the arguments
+            if isinstance(f, ast.Name) and f.id in ('search', 'match', 'fullmatch', 'findall', 'finditer') and len(call.args) >= 2:
+                def pattern_like(a):
+                    return (isinstance(a, ast.Attribute) and isinstance(a.value, ast.Name) and a.value.id in ('self', 'cls') and a.attr.isupper()) \
+                        or (isinstance(a, ast.Name) and ('pattern' in a.id.lower() or a.id.isupper())) \
+                        or (isinstance(a, ast.Constant) and isinstance(a.value, str))
+                if pattern_like(call.args[1]) and not pattern_like(call.args[0]):
+                    out.append((call, f'the pattern is passed where the text belongs in {ast.unparse(call)[:70]}'))
+            if isinstance(f, ast.Name) and f.id in ('map', 'filter', 'starmap', 'filterfalse') and len(call.args) >= 2:
+                def callable_like(a):
+                    return isinstance(a, ast.Lambda) or (isinstance(a, ast.Attribute) and a.attr.startswith('__') and a.attr.endswith('__')) \
+                        or (isinstance(a, ast.Call) and isinstance(a.func, ast.Name) and a.func.id == 'partial')
+                if callable_like(call.args[1]) and not callable_like(call.args[0]) and not (isinstance(call.args[0], ast.Constant) and call.args[0].value is None):
+                    out.append((call, f'the function is passed where the iterable belongs in {ast.unparse(call)[:70]}'))
+            continue
+        names = [a.id if isinstance(a, ast.Name) else None for a in call.args]
+        for i, nm in enumerate(names):
+            if nm is None or i >= len(sig) or nm == sig[i] or nm not in sig:
+                continue
+            j = sig.index(nm)
+            # nm belongs in position j; is the owner of position i passed somewhere else by name?
+            if sig[i] in names and names.index(sig[i]) != i:
+                out.append((call, f'`{nm}` is passed for parameter `{sig[i]}` and `{sig[i]}` for `{sig[names.index(sig[i])]}` in {ast.unparse(call)[:70]}'))
+                break
+    return out
+
+
+def _read_before_any_store(fn, bound) -> list:
+    """(d) straight-line order: a local is read by a statement that runs before every statement that could bind it.  Statements
+    are taken block by block in order; a compound statement is assumed to bind everything it binds anywhere inside (so nothing is
+    reported across branches), a loop body additionally starts with everything the loop binds (values of the previous iteration)."""
+    out = []
+    a = fn.args
+    params = {x.arg for x in a.posonlyargs + a.args + a.kwonlyargs + [y for y in (a.vararg, a.kwarg) if y]}
+    local_names = set()
+    for n in _scope_nodes(fn):
+        if isinstance(n, ast.Name) and isinstance(n.ctx, ast.Store):
+            local_names.add(n.id)
+        elif isinstance(n, (ast.FunctionDef, ast.ClassDef)):
+            local_names.add(n.name)
+        elif isinstance(n, ast.ExceptHandler) and n.name:
+            local_names.add(n.name)
+        elif isinstance(n, (ast.MatchAs, ast.MatchStar)) and n.name:
+            local_names.add(n.name)
+        elif isinstance(n, (ast.Import, ast.ImportFrom)):
+            local_names |= {(al.asname or al.name).split('.')[0] for al in n.names}
+    local_names -= params
+    for n in _scope_nodes(fn):
+        if isinstance(n, (ast.Global, ast.Nonlocal)):
+            local_names -= set(n.names)
+
+    def stores_in(node):
+        s = set()
+        for x in ast.walk(node):
+            if isinstance(x, ast.Name) and isinstance(x.ctx, (ast.Store, ast.Del)):
+                s.add(x.id)
+            elif isinstance(x, (ast.FunctionDef, ast.ClassDef)):
+                s.add(x.name)
+            elif isinstance(x, ast.ExceptHandler) and x.name:
+                s.add(x.name)
+            elif isinstance(x, (ast.MatchAs, ast.MatchStar)) and x.name:
+                s.add(x.name)
+            elif isinstance(x, (ast.Import, ast.ImportFrom)):
+                s |= {(al.asname or al.name).split('.')[0] for al in x.names}
+        return s
+
+    def own_loads(expr):
+        """loads of an expression that are evaluated when the expression is (not those inside lambdas / nested defs; a
+        comprehension binds its own targets)"""
+        res = []
+        inner_bound = set()
+        for x in ast.walk(expr):
+            if isinstance(x, ast.comprehension):
+                for y in ast.walk(x.target):
+                    if isinstance(y, ast.Name):
+                        inner_bound.add(y.id)
+            if isinstance(x, ast.NamedExpr) and isinstance(x.target, ast.Name):
+                inner_bound.add(x.target.id)
+        skip = set()
+        for x in ast.walk(expr):
+            if isinstance(x, ast.Lambda):
+                skip |= {id(y) for y in ast.walk(x)}
+        for x in ast.walk(expr):
+            if id(x) in skip:
+                continue
+            if isinstance(x, ast.Name) and isinstance(x.ctx, ast.Load) and x.id not in inner_bound:
+                res.append(x)
+        return res
+
+    def headers(st):
+        if isinstance(st, (ast.If, ast.While)):
+            return [st.test]
+        if isinstance(st, ast.For):
+            return [st.iter]
+        if isinstance(st, ast.With):
+            return [i.context_expr for i in st.items]
+        if isinstance(st, ast.Match):
+            return [st.subject]
+        if isinstance(st, (ast.Try, ast.FunctionDef, ast.ClassDef)):
+            return []
+        if isinstance(st, ast.AugAssign):
+            return [st.value, st.target]
+        if isinstance(st, (ast.Assign, ast.AnnAssign)):
+            tg = st.targets if isinstance(st, ast.Assign) else [st.target]
+            return ([st.value] if st.value is not None else []) + [t for t in tg if not isinstance(t, ast.Name)]
+        return [st]
+
+    def run(stmts, assigned):
+        assigned = set(assigned)
+        for st in stmts:
+            for h in headers(st):
+                for x in own_loads(h):
+                    if x.id in local_names and x.id not in assigned:
+                        out.append((x.id, x, 'read before any statement that binds it has run'))
+                        assigned.add(x.id)
+            inner = set(assigned)
+            if isinstance(st, (ast.For, ast.While)):
+                inner |= stores_in(st)
+            for fld in ('body', 'orelse', 'finalbody'):
+                v = getattr(st, fld, None)
+                if isinstance(v, list) and v and isinstance(v[0], ast.stmt) and not isinstance(st, (ast.FunctionDef, ast.ClassDef)):
+                    run(v, inner | (stores_in(st) if fld != 'body' or isinstance(st, ast.Try) else set()) if not isinstance(st, ast.If) else inner)
+            if isinstance(st, ast.Try):
+                for hd in st.handlers:
+                    run(hd.body, inner | stores_in(st))
+            if isinstance(st, ast.Match):
+                for c in st.cases:
+                    run(c.body, inner | stores_in(c.pattern) | ({x.id for x in ast.walk(c.guard) if isinstance(x, ast.Name)} if c.guard else set()))
+            if isinstance(st, ast.With):
+                pass
+            assigned |= stores_in(st)
+    run(fn.body, params)
     return out
